@@ -12,6 +12,8 @@ mod sched;
 mod ratelimit;
 mod rpc;
 mod shim;
+#[allow(dead_code, unused_imports, unused_variables, unused_mut, clippy::all)]
+mod srvinc;
 mod store;
 mod tiered;
 mod validate;
